@@ -209,6 +209,50 @@ def bookkeeping(run, rng):
                              rp, concrete=False)
 
 
+def fastpath_lift(run, rng):
+    """reset_error_density_matrix / depolarizing_error_density_matrix (backends/numpy.py) on integer states with dyadic
+    probabilities, compared exactly with C18/LiftC04.lift_reset / lift_depol (weights (x) the partial_trace model)"""
+    from qibo import gates
+    from qibo.backends import _check_backend
+    ok = True
+    try:
+        vcore.ensure_static_build(["C18/LiftC04"])
+    except Exception as e:  # noqa: BLE001
+        ok = False
+        run.notes["LiftC04_build_error"] = str(e)[-600:]
+    for name in vcore.props_theorems("C18/LiftC04.v"):
+        run.oblige("LiftC04." + name, ok, "static theorem (C04 closed forms = weights (x) partial_trace model)")
+    if not ok:
+        run.find("coq:LiftC04", "C18/LiftC04.v (or C04/ChannelSpec.v it depends on) does not build", {}, concrete=False)
+        return
+    be = _check_backend(None)
+    terms, meta = [], []
+    for n in ((2, 3) if run.tier == "quick" else (2, 3, 4)):
+        d = 2 ** n
+        rho = rand_op(rng, d)
+        pre_rho = lit(ints(rho)[0])
+        for q in range(n):
+            out = gates.ResetChannel(q, [0.25, 0.5]).apply_density_matrix(be, rho.copy(), n) * 4
+            terms.append((f"r{len(terms)}", f"zmeqb (lift_reset {n}%nat {q}%nat 1 1 2 {pre_rho}) {lit(ints(out)[0])}"))
+            meta.append(("reset_error_density_matrix", {"n": n, "q": q, "p0": 0.25, "p1": 0.5, "state": ints(rho)[0]}))
+        lists = [list(p) for k in range(1, n + 1) for p in itertools.permutations(range(n), k)]
+        if len(lists) > 12:
+            lists = lists[:n] + rng.sample(lists[n:], 12 - n)
+        for qs in lists:
+            k = len(qs)
+            out = gates.DepolarizingChannel(tuple(qs), 0.5).apply_density_matrix(be, rho.copy(), n) * 2 ** (k + 1)
+            terms.append((f"d{len(terms)}", f"zmeqb (lift_depol {n}%nat {natl(qs)} {2 ** k} 1 {pre_rho}) {lit(ints(out)[0])}"))
+            meta.append(("depolarizing_error_density_matrix", {"n": n, "qubits": qs, "lam": 0.5, "state": ints(rho)[0]}))
+    out, log = run.coq_bools("C18_fastpath.v", HEADER + "From QV Require Import C18.LiftC04.\n", terms, timeout=900)
+    for (lab, _), (key, rp) in zip(terms, meta):
+        run.case({"key": key, **{k: v for k, v in rp.items() if k != "state"}}, True)
+        if out is None:
+            run.find(f"coq:{key}", "generated Coq file did not compile", rp, concrete=False)
+            break
+        if not out[lab]:
+            run.find(key, f"{key} differs from weights (x) partial_trace ({ {k: v for k, v in rp.items() if k != 'state'} })", rp)
+
+
 def kept_order_probe(run):
     """the density-matrix route relies on tuple(set(range(n)) ^ set(traced)) being ASCENDING (the model's
     `complement`); that is a CPython set-iteration detail, checked here exhaustively for n <= 10"""
@@ -557,7 +601,8 @@ def dimension_probes(run, rng, T):
                 f"expected {np.round(want, 4).tolist()}; qibo.matrices.H unchanged: {same_H}. For one qubit reduce(np.kron, [matrices.H]) IS "
                 "matrices.H and np.real returns a view, so `hadamards /= 2**(n/2)` rescales the library's global Hadamard matrix in place: "
                 "every later call (any n) is off by a factor sqrt(2) per previous one-qubit call", {"n": n, "v": v.tolist()})
-        qmat.H[...] = saved_H           # undo the damage so that the rest of the run is not affected
+        if not same_H:                  # the failure is already recorded above; only then undo the damage so that the
+            qmat.H[...] = saved_H       # other probes of this run report their own defects, not this one again
         if n >= 2:
             ghz = np.zeros(d, dtype=complex)
             ghz[0] = ghz[-1] = 1 / math.sqrt(2)
@@ -816,6 +861,7 @@ def main(run):
     warnings.simplefilter("ignore")
     np.seterr(all="ignore")
     bookkeeping(run, rng)
+    fastpath_lift(run, random.Random(run.seed + 2))
     kept_order_probe(run)
     classical(run, rng)
     seed_machine(run, rng)
@@ -847,7 +893,9 @@ def replay(run, data):
     """re-run the whole (cheap) check and keep the recorded key"""
     rng = random.Random(data.get("seed", 0))
     key = data["key"]
-    if key.startswith(("partial_", "schmidt", "purity", "hilbert", "fidelity:pure_shortcut", "process_fidelity", "model:", "coq:")):
+    if key.startswith(("reset_error", "depolarizing_error")):
+        fastpath_lift(run, random.Random(data.get("seed", 0) + 2))
+    elif key.startswith(("partial_", "schmidt", "purity", "hilbert", "fidelity:pure_shortcut", "process_fidelity", "model:", "coq:")):
         bookkeeping(run, rng)
     elif key.startswith(("hamming", "total_variation")):
         classical(run, rng)
